@@ -13,7 +13,7 @@
 (* Identifier pools are adversarial on purpose: I J K Q R Z Z1 V V1 N0 ... *)
 (* are the names anthem's translators choose as "fresh".                   *)
 (***************************************************************************)
-EXTENDS Integers, Sequences, TLC, Json, IOUtils
+EXTENDS Integers, Sequences, TLC, Json, IOUtils, Syntax
 
 Mode == IOEnv.GEN_MODE
 Count == atoi(IOEnv.GEN_COUNT)
@@ -761,8 +761,21 @@ OutlineCase(n, sd) ==
       right |-> IF base = 0 THEN "p(X) :- q(X), 0 < X." ELSE "p(X) :- q(X), X >= 1.",
       ug |-> "input: q/1. output: p/1.", po |-> OEntries(Nx(sd), 1, cnt)]
 
+\* ---------------------------------------------------------------- reference grammar (Syntax.tla): minimally parenthesised text + the tree it means
+PrecAspCase(n) ==
+  LET idx == (Seed0 * 61 + n * Stride) % (2 * NAspTerms)
+      t == AspTerm(idx \div 2)
+      sp == IF idx % 2 = 0 THEN " " ELSE ""
+  IN [id |-> "pa" \o ToString(idx), prog |-> "p(" \o TText(t, 1, sp) \o ") :- q(X), q(Y).", exp |-> t]
+PrecFolCase(n) ==
+  LET idx == (Seed0 * 67 + n * Stride) % (NFolForms + NFolCmps)
+      f == IF idx < NFolForms THEN FolForm(idx) ELSE FolCmp(idx - NFolForms)
+  IN [id |-> "pf" \o ToString(idx), f |-> FText(f, 1), exp |-> f]
+
 Case(n, sd) ==
   CASE Mode = "program" -> ProgramCase(n, sd)
+    [] Mode = "precasp" -> PrecAspCase(n)
+    [] Mode = "precfol" -> PrecFolCase(n)
     [] Mode = "outline" -> OutlineCase(n, sd)
     [] Mode = "aspsyntax" -> AspSyntaxCase(n, sd)
     [] Mode = "folsyntax" -> FolSyntaxCase(n, sd)
